@@ -449,6 +449,10 @@ func (s *Supervisor) ForkingWorkerState(e *am.Event) {
 	bootAddr := boot.Addr()
 	argsOut := &A{Bootstrap: boot}
 
+	// track the fork right away (under the boot addr), so the forks in flight
+	// count against Max in both gates and in the pool listings
+	s.workers[bootAddr] = newWorkerInfo(s, nil)
+
 	// test forking, if provided
 	if s.TestFork != nil {
 		// unblock
@@ -457,6 +461,8 @@ func (s *Supervisor) ForkingWorkerState(e *am.Event) {
 				return // expired
 			}
 			if err := s.TestFork(bootAddr); err != nil {
+				// untrack the failed fork
+				s.Mach.Add1(ssS.SetWorker, Pass(&A{WorkerAddr: bootAddr}))
 				AddErrWorker(e, s.Mach, err, Pass(argsOut))
 				return
 			}
@@ -956,7 +962,14 @@ func (s *Supervisor) ListWorkersState(e *am.Event) {
 var _ = ssS.SetWorker
 
 func (s *Supervisor) SetWorkerEnter(e *am.Event) bool {
-	return am.ParseArgs[A](e.Args).WorkerAddr != ""
+	a := am.ParseArgs[A](e.Args)
+	if a.WorkerAddr == "" {
+		return false
+	}
+
+	// a new entry never grows the pool beyond Max
+	_, tracked := s.workers[a.WorkerAddr]
+	return a.WorkerInfo == nil || tracked || len(s.workers) < s.Max
 }
 
 func (s *Supervisor) SetWorkerState(e *am.Event) {
